@@ -443,8 +443,16 @@ func (w *World) ruleXorLanes(rule, repo string) {
 					_ = lo
 					guarded := false
 					for _, f := range wd.factsAt(st) {
-						if strings.Contains(f.Expr, "len("+buf+") >= 136") {
-							guarded = true
+						// len(buf) >= N with N >= 8(k+1), or (len(buf) / 8) >= M with M >= k+1
+						if strings.HasPrefix(f.Expr, "len("+buf+") >= ") {
+							if nn, ok := parseInt(strings.TrimPrefix(f.Expr, "len("+buf+") >= ")); ok && nn >= 8*(k+1) {
+								guarded = true
+							}
+						}
+						if strings.HasPrefix(f.Expr, "(len("+buf+") / 8) >= ") {
+							if mm, ok := parseInt(strings.TrimPrefix(f.Expr, "(len("+buf+") / 8) >= ")); ok && mm >= k+1 {
+								guarded = true
+							}
 						}
 					}
 					if !(guarded || okb && lo >= 8*(k+1)) && bad == "" {
